@@ -1165,6 +1165,61 @@ def _unroll_table_comprehensions(tree: ast.Module) -> int:
     return n
 
 
+_BASE_CONSTS = None
+
+
+def inline_new_constants(tree: ast.Module, modname: str) -> int:
+    """A module-level name bound once to a str / number literal that the reference tree does not have (`_MD5_DOS2UNIX =
+    "md5-dos2unix"` introduced to replace a magic string) is folded back into the functions that read it."""
+    global _BASE_CONSTS
+    if _BASE_CONSTS is None:
+        import json
+        import os
+
+        try:
+            with open(os.path.join(os.path.dirname(os.path.abspath(__file__)), "baseline_consts.json")) as fh:
+                _BASE_CONSTS = json.load(fh)
+        except OSError:
+            _BASE_CONSTS = {}
+    known = _BASE_CONSTS.get(modname)
+    if known is None:
+        return 0
+    known = set(known)
+    cands, counts = {}, {}
+    for st in tree.body:
+        tg = st.targets[0] if isinstance(st, ast.Assign) and len(st.targets) == 1 else (st.target if isinstance(st, ast.AnnAssign) else None)
+        v = getattr(st, "value", None)
+        if isinstance(tg, ast.Name):
+            counts[tg.id] = counts.get(tg.id, 0) + 1
+            if isinstance(v, ast.Constant) and isinstance(v.value, (str, int, float)) and not isinstance(v.value, bool) and tg.id not in known:
+                cands[tg.id] = v
+    for x in ast.walk(tree):
+        if isinstance(x, ast.Global):
+            for nm in x.names:
+                counts[nm] = counts.get(nm, 0) + 2
+        if isinstance(x, ast.Name) and not isinstance(x.ctx, ast.Load) and x.id in cands:
+            counts[x.id] = counts.get(x.id, 0) + 1  # counted once above already for the module-level binding
+    cands = {k: v for k, v in cands.items() if counts.get(k, 0) <= 2}
+    if not cands:
+        return 0
+    n = 0
+    for fn in ast.walk(tree):
+        if not isinstance(fn, (ast.FunctionDef, ast.AsyncFunctionDef)):
+            continue
+        local = {a.arg for a in ast.walk(fn.args) if isinstance(a, ast.arg)} | {y.id for y in ast.walk(fn) if isinstance(y, ast.Name) and not isinstance(y.ctx, ast.Load)}
+
+        class R(ast.NodeTransformer):
+            def visit_Name(self, node):
+                nonlocal n
+                if isinstance(node.ctx, ast.Load) and node.id in cands and node.id not in local:
+                    n += 1
+                    return ast.copy_location(copy.deepcopy(cands[node.id]), node)
+                return node
+
+        R().visit(fn)
+    return n
+
+
 def desugar(tree: ast.Module) -> int:
     total = expand_dict_splats(tree)
     total += _unroll_table_comprehensions(tree)
